@@ -268,6 +268,12 @@ def leaf_from_json(leaf, data, registry=None):
     rs = RecordingSource(data.copy(), storage_chunks=chunks_attr, shards=shards_attr, tokenizable=src.get("tokenizable", True))
     if registry is not None:
         registry.append(rs)
+    via = src.get("via", "from_array")
+    if via in ("asarray", "asanyarray"):
+        # the raw array-like handed to da.asarray / da.asanyarray (what `x * 2 + src` does implicitly);
+        # the requested chunking is applied on top
+        y = getattr(da, via)(wrap_adapter(rs, src.get("adapter", 0)))
+        return y if y.chunks == kw["chunks"] else y.rechunk(kw["chunks"])
     return da.from_array(wrap_adapter(rs, src.get("adapter", 0)), **kw)
 
 
